@@ -567,6 +567,12 @@ pair("equal_str_different_phsp_factor", EnergyDependentWidth(s, m0, w0, ma, mb, 
 pair("equal_str_different_assumptions", PoolSum(sp.Symbol("a", real=True) * i, (i, (1, 2))), PoolSum(sp.Symbol("a", positive=True) * i, (i, (1, 2))),
      "first: Symbol('a', real=True); second: Symbol('a', positive=True); ")
 pair("equal_hash_1/x_vs_1/x**2", PoolSum(x**i, (i, (-1,))), PoolSum(x**i, (i, (-2,))))
+class PhspConfig:
+    def __init__(self, power): self.power = power
+    def factor(self, s, m1, m2): return PhaseSpaceFactor(s, m1, m2) ** self.power
+cfg1, cfg2 = PhspConfig(1), PhspConfig(2)
+pair("equal_str_bound_methods_of_different_objects", EnergyDependentWidth(s, m0, w0, ma, mb, 1, 1, phsp_factor=cfg1.factor), EnergyDependentWidth(s, m0, w0, ma, mb, 1, 1, phsp_factor=cfg2.factor),
+     "first: phsp_factor=PhspConfig(1).factor; second: phsp_factor=PhspConfig(2).factor (same qualified name, different state); ")
 # truncated file at (sampled) prefix lengths
 d = fresh()
 try:
@@ -810,3 +816,8 @@ def build(chk: Check) -> None:
         for name in ("miss", "hit"):
             r = sc.get(name, {"ok": False, "observed": sc.get("error", "missing")})
             chk.struct(f"scenarios[{tagp}].{name}_returns_doit", r["ok"], F, witness=r, replay=scen_replay(seed, [name], tier), bounded=True)
+        # the E3 proof assumes that == on expressions is structural equality incl. non-SymPy attributes (C14's contract): these
+        # instance-level runs of the real function exercise that assumption with expressions that share str / hash / key
+        for name in ("equal_str_different_phsp_factor", "equal_str_different_assumptions", "equal_hash_1/x_vs_1/x**2", "equal_str_bound_methods_of_different_objects"):
+            r = sc.get(name, {"ok": False, "observed": sc.get("error", "missing")})
+            chk.struct(f"scenarios[{tagp}].collision[{name}].second_call_returns_its_own_doit", r["ok"], F, witness=r, replay=scen_replay(seed, [name], tier), bounded=True)
